@@ -976,8 +976,10 @@ def run_readers(ctx, md, tmp, real_size, only=None):
                 ctx.diverge('file %s read alone: model reader %s, written was %s' % (
                     names[i], short_triples(rep, 200), short_triples(triples_str(want[i]), 200)),
                     {'kind': 'readers', 'files': [{'name': specs[i][0], 'init': specs[i][1], 'ops': specs[i][2]}], 'schedule': [['o', 0, 0]]})
-    failed = 0
+    failed, t_end = 0, time.time() + 12
     for sched in scheds:
+        if failed >= 3 or time.time() > t_end:
+            break                # (a reader that went wrong may have become very slow: three witnesses are enough)
         bad = schedule_oracle(md, paths, want, names, sched)
         files_used = sorted({a[2] for a in sched if a[0] == 'o'})
         ctx.case(('readers', tuple(names[f] for f in files_used), hashlib.sha1(repr(sched).encode()).hexdigest()[:16]),
@@ -986,8 +988,6 @@ def run_readers(ctx, md, tmp, real_size, only=None):
         ctx.count('readers-in-schedule=%d' % sum(1 for a in sched if a[0] == 'o'))
         if bad:
             failed += 1
-            if failed > 3:
-                continue
             sig = bad[0]
             small = lib.shrink_list(sched, lambda c: (schedule_oracle(md, paths, want, names, c) or ('',))[0] == sig, max_rounds=60)
             again = schedule_oracle(md, paths, want, names, small)
@@ -1032,6 +1032,7 @@ def run(ctx):
         path = os.path.join(tmp, 'store.db')
         cs, big = corpus()
         run_cases(ctx, md, path, [(init, ops) for ops in cs for init in (SMALL, real_size)], 'corpus')
+        run_readers(ctx, md, tmp, real_size)
         run_cases(ctx, md, path, [(real_size, ops) for ops in big] + [(SMALL, big[0])], 'corpus-huge-key', chunk=2)
         alpha = exhaustive_alphabet()
         run_cases(ctx, md, path, [(SMALL, list(h)) for h in itertools.product(alpha, repeat=depth)], 'exhaustive')
@@ -1039,7 +1040,6 @@ def run(ctx):
         ctx.extra['exhaustive_space'] = 'all %d histories of length %d over 6 operations at initial size %d' % (6 ** depth, depth, SMALL)
         run_malformed(ctx, md, tmp)
         run_recreated(ctx, md, tmp)
-        run_readers(ctx, md, tmp, real_size)
         done = 0
         while done < n_random and time.time() - ctx.t0 < budget:
             batch = []
